@@ -160,8 +160,8 @@ def run(ctx):
     return ctx.finish("model_checking", {
         "exhaustive": True, "evaluations": sum(v.get("renders", 0) for v in cov.values() if isinstance(v, dict)), "families": cov,
         "rule": "every interleaving of the 3 phases of 2 renders x every ordered pair of pool documents x {after other renders (worker pool), fresh process (one process per schedule; quick tier: overlapping layouts of unordered pairs)}; the whole pool at once in a fresh process; seeded samples of 3 (and 4) "
-                "renders; pool of 14 documents (anchors and links, broken floats, counters, tables with header/footer, columns and flex, named strings and bookmarks, "
-                "hyphenation and ex/ch units, positioned and running elements, two documents binding one font family name to different fonts with @font-face, two documents whose elements of different font sizes are matched by one rule of the shared user style sheet, Hungarian text with non-standard hyphenation points); Flow.tla documents rendered 4 times each; "
+                "renders; pool of 16 documents (anchors and links, broken floats, counters, tables with header/footer, columns and flex, named strings and bookmarks, "
+                "hyphenation and ex/ch units, positioned and running elements, two documents binding one font family name to different fonts with @font-face, two documents whose elements of different font sizes are matched by one rule of the shared user style sheet, Hungarian text with non-standard hyphenation points, raster images, inline SVG with three-link chains of gradient / pattern references); Flow.tla documents rendered 4 times each; "
                 "every 1-node document of Docs.tla (all feature bundles x 2 geometries x 2 extras) and the 2-node documents over the core bundles rendered 3 times each",
     }, assumptions=[
         "the harness is built with -race; GORACE=halt_on_error=1; a schedule orders the STARTS of the phases (they overlap in time)",
